@@ -54,6 +54,22 @@ class RecLib:
         raise AttributeError(n)
 
 
+_DECOYS = []
+
+
+def _decoys():
+    if not _DECOYS:
+        from strengths import RDNetwork, Species, Reaction, RDSystem, RDGridSpace, RDGraphSpace, RDScript
+        from strengths.rdgraphspace import RDGraphSpaceNode as N_, RDGraphSpaceEdge as E_
+        net = RDNetwork(species=[Species("B", D=3.0, density=11.0), Species("A", D=7.0, density=13.0, chstt=True), Species("C", D=5.0, density=17.0)],
+                        reactions=[Reaction("2 A -> C", kf=19.0, kr=23.0), Reaction("B + C -> A", kf=29.0), Reaction(" -> B", kf=31.0)])
+        _DECOYS.append(RDScript(RDSystem(net, RDGridSpace(w=1, h=2, d=2, cell_vol=3.0, boundary_conditions={"x": "periodical", "y": "periodical", "z": "periodical"})),
+                                [0, 37.0, 41.0], time_step=0.75, rng_seed=4321, sampling_policy="on_interval", sampling_interval=1.75, t_max=43.0))
+        _DECOYS.append(RDScript(RDSystem(net.copy(), RDGraphSpace(nodes=[N_(2.0, 0), N_(3.0, 0), N_(5.0, 0), N_(7.0, 0)], edges=[E_(0, 1, 2.0, 3.0), E_(1, 2, 5.0, 7.0), E_(2, 3, 1.5, 2.5), E_(0, 3, 4.0, 4.5)])),
+                                [0, 47.0], time_step=0.625, rng_seed=8765))
+    return _DECOYS
+
+
 def record_setup(script, option, requires_molecules=None):
     """Run the real LibRDEngine.setup(script) against a RecLib; return (kind, dict of named ABI args)."""
     from strengths.librdengine import LibRDEngine
@@ -61,6 +77,14 @@ def record_setup(script, option, requires_molecules=None):
         requires_molecules = option in ("gillespie", "tauleap")
     lib = RecLib()
     e = LibRDEngine(lib, option=option, description="rec", requires_molecules=requires_molecules)
+    # the engine OBJECT is not fresh: it has already been set up with two other scripts (a grid and a graph one, other network with
+    # the same species labels, one finalized and one abandoned). What it hands to the native engine for `script` must not depend
+    # on that - every engine leg of every property starts from the arrays of this third set-up.
+    for decoy in _decoys():
+        e.setup(decoy)
+        if decoy is _DECOYS[0]:
+            e.finalize()
+    del lib.log[:]
     e.setup(script)
     calls = [c for c in lib.log if c[0].startswith("engineexport_initialize")]
     if len(calls) != 1:
